@@ -8,6 +8,10 @@ request and whether they come before the application callback:
     _process_direct_streamlocal_at_openssh_dot_com_open              (direct-streamlocal@openssh.com)
     _process_streamlocal_forward_at_openssh_dot_com_global_request   (streamlocal-forward@openssh.com)
 
+It also extracts the handler's tests of the address itself, made on the variables later handed to the
+application: `if <port> > N: <deny>` (largest port let through) and `if '\\0' in <path> and not
+<path>.startswith('\\0'): <deny>`.
+
 A check counts only in the shape the model mirrors: an `if` whose test is a disjunction containing
 `not self.check_key_permission('port-forwarding')` / `not self.check_certificate_permission('port-forwarding')`
 and whose body denies (raises, or reports a failed global response and returns); the permitopen check is the
@@ -81,7 +85,7 @@ def _denies(body: List[ast.stmt]) -> bool:
     return reported and any(isinstance(s, ast.Return) for s in body)
 
 
-def _checks_of(fn: ast.FunctionDef, app_names: List[str]) -> Dict[str, Any]:
+def _checks_of(fn: ast.FunctionDef, app_names: List[str], consts: Optional[Dict[str, int]] = None) -> Dict[str, Any]:
     key = cert = permitopen = wildcard = False
     check_lines: List[int] = []
     for n in ast.walk(fn):
@@ -139,13 +143,77 @@ def _checks_of(fn: ast.FunctionDef, app_names: List[str]) -> Dict[str, Any]:
                     check_lines.append(n.lineno)
     # the application is asked after the checks
     app_lines = []
+    app_args: List[ast.expr] = []
     for n in ast.walk(fn):
         if isinstance(n, ast.Call) and isinstance(n.func, ast.Attribute) and n.func.attr in app_names:
             app_lines.append(n.lineno)
+            if not app_args:
+                app_args = list(n.args)
     if not app_lines:
         raise Untranslatable(f'{fn.name}: call of {app_names} not found')
+    # well-formedness tests on the address itself, on the very variables handed to the application:
+    #   `if <port> > N: <deny>` / `>= N`        (N a literal or a module-level integer constant)
+    #   `if '\0' in <path> and not <path>.startswith('\0'): <deny>`
+    addr0 = app_args[0].id if app_args and isinstance(app_args[0], ast.Name) else None
+    addr1 = app_args[1].id if len(app_args) > 1 and isinstance(app_args[1], ast.Name) else None
+    max_port: Optional[int] = None
+    path_nul = False
+    for n in ast.walk(fn):
+        if not isinstance(n, ast.If):
+            continue
+        t = n.test
+        if isinstance(t, ast.Compare) and len(t.ops) == 1 and isinstance(t.ops[0], (ast.Gt, ast.GtE)) \
+                and isinstance(t.left, ast.Name) and addr1 is not None and t.left.id == addr1:
+            bound = _int_const(t.comparators[0], consts or {})
+            if bound is None:
+                raise Untranslatable(f'{fn.name}: bound of the port test at line {n.lineno} not understood')
+            if not _denies(n.body) or n.orelse:
+                raise Untranslatable(f'{fn.name}: port test at line {n.lineno} does not deny')
+            m = bound if isinstance(t.ops[0], ast.Gt) else bound - 1
+            max_port = m if max_port is None else min(max_port, m)
+            check_lines.append(n.lineno)
+        elif isinstance(t, ast.BoolOp) and isinstance(t.op, ast.And) and len(t.values) == 2 and addr0 is not None \
+                and _is_nul_in(t.values[0], addr0) and _is_not_startswith_nul(t.values[1], addr0):
+            if not _denies(n.body) or n.orelse:
+                raise Untranslatable(f'{fn.name}: NUL test at line {n.lineno} does not deny')
+            path_nul = True
+            check_lines.append(n.lineno)
     after = all(cl < min(app_lines) for cl in check_lines)
-    return dict(key=key, cert=cert, permitopen=permitopen, wildcard=wildcard, app_after=after)
+    return dict(key=key, cert=cert, permitopen=permitopen, wildcard=wildcard, app_after=after,
+                max_port=max_port, path_nul=path_nul)
+
+
+def _int_const(n: ast.AST, consts: Dict[str, int]) -> Optional[int]:
+    if isinstance(n, ast.Constant) and isinstance(n.value, int) and not isinstance(n.value, bool):
+        return n.value
+    if isinstance(n, ast.Name) and n.id in consts:
+        return consts[n.id]
+    return None
+
+
+def _is_nul_in(n: ast.AST, var: str) -> bool:
+    return isinstance(n, ast.Compare) and len(n.ops) == 1 and isinstance(n.ops[0], ast.In) \
+        and isinstance(n.left, ast.Constant) and n.left.value == '\0' \
+        and isinstance(n.comparators[0], ast.Name) and n.comparators[0].id == var
+
+
+def _is_not_startswith_nul(n: ast.AST, var: str) -> bool:
+    if not (isinstance(n, ast.UnaryOp) and isinstance(n.op, ast.Not)):
+        return False
+    c = n.operand
+    return isinstance(c, ast.Call) and isinstance(c.func, ast.Attribute) and c.func.attr == 'startswith' \
+        and isinstance(c.func.value, ast.Name) and c.func.value.id == var and len(c.args) == 1 \
+        and isinstance(c.args[0], ast.Constant) and c.args[0].value == '\0'
+
+
+def _module_int_consts(tree: ast.Module) -> Dict[str, int]:
+    out: Dict[str, int] = {}
+    for n in tree.body:
+        if isinstance(n, ast.Assign) and len(n.targets) == 1 and isinstance(n.targets[0], ast.Name) \
+                and isinstance(n.value, ast.Constant) and isinstance(n.value.value, int) \
+                and not isinstance(n.value.value, bool):
+            out[n.targets[0].id] = n.value.value
+    return out
 
 
 def _perm_rule(fn: ast.FunctionDef, attr: str) -> Tuple[str, bool]:
@@ -218,7 +286,7 @@ def generate() -> Tuple[str, Dict[str, Any]]:
     rows = []
     for kind, fname, app in HANDLERS:
         fn = _find_method(tree, 'SSHServerConnection', fname)
-        ch = _checks_of(fn, app)
+        ch = _checks_of(fn, app, _module_int_consts(tree))
         info[kind] = ch
         rows.append((kind, ch))
     key_fn = _find_method(tree, 'SSHServerConnection', 'check_key_permission')
@@ -251,10 +319,15 @@ def generate() -> Tuple[str, Dict[str, Any]]:
     out.append('namespace AsyncsshModel.Gen.C20')
     out.append('open AsyncsshModel AsyncsshModel.Forward')
     out.append('')
-    out.append('/-- which credential checks guard each request kind (key permission, certificate permission, permitopen) -/')
+    out.append('/-- which checks guard each request kind: key permission, certificate permission, permitopen; the largest')
+    out.append('    port number the handler lets through (`if <port> > N: <deny>`), and whether it refuses a path name with a')
+    out.append('    NUL inside -/')
     out.append('def checksOf : ReqKind → Checks')
     for kind, ch in rows:
-        out.append(f'  | .{kind} => ⟨{lean_bool(ch["key"])}, {lean_bool(ch["cert"])}, {lean_bool(ch["permitopen"])}⟩')
+        mp = 'none' if ch['max_port'] is None else f'some {ch["max_port"]}'
+        out.append(f'  | .{kind} => {{ key := {lean_bool(ch["key"])}, cert := {lean_bool(ch["cert"])}, '
+                   f'permitopen := {lean_bool(ch["permitopen"])}, maxPort := {mp}, '
+                   f'pathNul := {lean_bool(ch["path_nul"])} }}')
     out.append('')
     out.append('/-- all credential checks of the handler come before the application callback -/')
     out.append('def appAskedAfterChecks : ReqKind → Bool')
